@@ -17,7 +17,7 @@ EXPLANATION = (
 ASSUMPTIONS = [
     "floats as exact reals; scales from a finite grid (they multiply sizes under floor/ceil); translations, sizes, probe pixel, padding symbolic and unbounded",
     "image sides <= 2^31-1 wherever the sampled path casts to integers (GDAL's own limit)",
-    "different CRSs (GbxPointTransform calls PROJ) and 'scale measured at the centre of the overlap' (lstsq) are outside the claim",
+    "different CRSs: the planning runs through the real GbxPointTransform with only the pyproj transformer standing in (R8: coordinates coincide, geographic input outside +-180/+-90 has no image) or through a non-linear wrapper of the pair's affine (R7); curved transforms are PROJ's and outside the claim",
     "roi_src may extend to the next multiple of read_shrink beyond the source image (the statement allows it)",
     "zero-area claim for separated rasters: separation beyond padding + alignment + 1 source pixels",
     "roi_boundary's float32 rounding of boundary points is outside the real model",
@@ -285,6 +285,100 @@ def h_reproject_general(kx, ky, mx, my, padmode, align, pin="none"):
 
 
 
+# ---- R8: the real GbxPointTransform, lon/lat clamping -------------------------------------------------
+class _DomainTransformer:
+    """Stand-in for the pyproj transformer between two CRSs: the coordinates coincide numerically
+    (one admissible CRS change: the harness can then evaluate every clause exactly), and PROJ's
+    contract for geographic *input* is kept -- a longitude/latitude outside +-180/+-90 has no image
+    (non-finite output).  Calls are recorded."""
+
+    def __init__(self, geographic_input, log):
+        self.geo, self.log = geographic_input, log
+
+    def __call__(self, xx, yy, **kw):
+        from ..npmodel import NP
+
+        ox, oy = [], []
+        for x, y in zip(list(xx), list(yy)):
+            bad = False
+            if self.geo:
+                bad = bool(Or(ex(x) < -180, ex(x) > 180, ex(y) < -90, ex(y) > 90))
+            self.log.append((self.geo, bad))
+            ox.append(float("inf") if bad else x)
+            oy.append(float("inf") if bad else y)
+        return NP.asarray(ox), NP.asarray(oy)
+
+
+def h_gbx_transform(side, k, padmode="none", align=0):
+    """compute_reproject_roi between a projected source and a *geographic* destination that
+    overhangs the valid lon/lat range by a symbolic amount on one corner (what rounding of a global
+    grid's edges produces): through the real native_pix_transform / GbxPointTransform (both
+    directions, clamping included) with only the pyproj transformer standing in."""
+    ov = ovm()
+    from affine import Affine
+
+    import odc.geo.crs as crsm
+    import odc.geo.geobox as gbx
+
+    log = []
+    # destination: global lon/lat grid, 8 x 4 pixels of 45 degrees, shifted by (ex_, ey_) beyond the
+    # north-west (side="nw") or south-east corner of the valid range
+    r = 45
+    Ndx, Ndy = 8, 4
+    ex_, ey_ = Real("over_x"), Real("over_y")
+    assume(And(ex_ >= 0, ex_ <= 1, ey_ >= 0, ey_ <= 1))
+    sgn = -1 if side == "nw" else 1
+    dst = gbx.GeoBox((Ndy, Ndx), Affine(rconst(r), 0.0, -180 + sgn * ex_, 0.0, rconst(-r), 90 - sgn * ey_), "epsg:4326")
+    # source: pixels of r/k "degrees" (the stand-in projected CRS shares its numbers with lon/lat),
+    # origin and size symbolic
+    kf = F(k)
+    ps = F(r) / kf
+    Nsx, Nsy = Int("Nsx", 1, 2**31 - 1), Int("Nsy", 1, 2**31 - 1)
+    ox, oy = Real("ox"), Real("oy")
+    src = gbx.GeoBox((Nsy, Nsx), Affine(rconst(ps), 0.0, ox, 0.0, rconst(-ps), oy), "epsg:3857")
+    kw, pad = _opts(padmode, align)
+    saved = (crsm.CRS.transformer_to_crs, ov.get_scale_at_point)
+    crsm.CRS.transformer_to_crs = lambda self, other, always_xy=True: _DomainTransformer(bool(self.geographic), log)
+    # the scale clauses are R7's; here the measurement is replaced by its contract (the pair's ratio)
+    from odc.geo.types import XY
+
+    ov.get_scale_at_point = lambda pt, tr, r=None: XY(x=rconst(kf), y=rconst(kf))
+    try:
+        rr = ov.compute_reproject_roi(src, dst, **kw)
+        from odc.geo.types import xy_
+
+        u, v = Int("u"), Int("v")
+        assume(And(0 <= u, u < Ndx, 0 <= v, v < Ndy))
+        hh = F(1, 2) if not symx.concrete_mode() else 0.5
+        (bk,) = rr.transform.back([xy_(u + hh, v + hh)])
+    finally:
+        crsm.CRS.transformer_to_crs, ov.get_scale_at_point = saved
+    (sy_, sx_), (dy_, dx_) = rr.roi_src, rr.roi_dst
+    prove("not_pasteable", rr.paste_ok is False or rr.paste_ok == False)  # noqa: E712
+    prove("roi_dst_within", And(0 <= dx_.start, dx_.stop <= Ndx, 0 <= dy_.start, dy_.stop <= Ndy))
+    prove("roi_src_within", And(0 <= sx_.start, sx_.stop <= Nsx, 0 <= sy_.start, sy_.stop <= Nsy))
+    # the centre of every destination pixel is a valid lon/lat (the overhang is below half a pixel):
+    # it maps to source pixel ((lon - ox)/ps, (oy - lat)/ps)
+    lon = -180 + sgn * ex(ex_) + r * (u + F(1, 2))
+    lat = 90 - sgn * ex(ey_) - r * (v + F(1, 2))
+    sx, sy = (lon - ex(ox)) / ps, (ex(oy) - lat) / ps
+    inside = And(sx >= 0, sx < Nsx, sy >= 0, sy < Nsy)
+    fx, fy = symx.s_floor(sx), symx.s_floor(sy)
+    prove("needed_dst_col", And(dx_.start <= u, u < dx_.stop), when=inside)
+    prove("needed_dst_row", And(dy_.start <= v, v < dy_.stop), when=inside)
+    prove("needed_src_col", And(sx_.start <= fx, fx < sx_.stop), when=inside)
+    prove("needed_src_row", And(sy_.start <= fy, fy < sy_.stop), when=inside)
+    if symx.concrete_mode():
+        import math
+
+        prove("transform_back_of_a_pixel_centre_is_finite", math.isfinite(float(bk.x)) and math.isfinite(float(bk.y)))
+        tolr = F(1, 10**6)
+        prove("transform_back_is_the_pixel_map", And(abs(ex(bk.x) - sx) <= tolr * (1 + abs(sx)), abs(ex(bk.y) - sy) <= tolr * (1 + abs(sy))))
+    else:
+        prove("transform_back_of_a_pixel_centre_is_finite", isinstance(bk.x, symx.Sym) or bk.x == bk.x and abs(bk.x) != float("inf"))
+        prove("transform_back_is_the_pixel_map", And(ex(bk.x) == sx, ex(bk.y) == sy))
+
+
 def h_separated(kx, ky, mx, my, padmode, align, axis):
     ov = ovm()
     src, dst, L, t, (Nsy, Nsx, Ndy, Ndx) = mk_pair(kx, ky, mx, my, None, bound=True)
@@ -402,6 +496,13 @@ OBLIGATIONS = [
        descr="the general (different-CRS) path with the CRS change standing in as a transform not declared linear (its pixel map is the pair's affine): regions within the images, needed pixels kept, scale measured through the transform at the centre of roi_dst, read_shrink contract, never pasteable",
        functions=("odc.geo.overlap.compute_reproject_roi", "odc.geo.overlap._relative_rois", "odc.geo.overlap.get_scale_at_point", "odc.geo.roi.roi_from_points", "odc.geo.roi.roi_boundary", "odc.geo.roi.roi_center"),
        bounds="scale grid x mirroring x padding x align; per-axis factoring; the stand-in transform is affine (curved transforms are PROJ's and outside the claim)", stubs=("NumpyModel", "native_pix_transform wrapped (linear = None, calls recorded)", "affine_from_pts contract: exact on affine data"), setup=setup_rws_stub if False else setup, timeout_ms=30000, deadline_s=2400),
+    Ob("R8_gbx_transform", h_gbx_transform,
+       tiered([dict(side="nw", k="3"), dict(side="se", k="1/2", padmode="0")],
+              [dict(side=sd, k=k, padmode=pm, align=al) for sd in ("nw", "se") for k in ("1", "3", "1/2", "7/3") for pm, al in (("none", 0), ("0", 0), ("sym", 4))]),
+       descr="compute_reproject_roi onto a global lon/lat destination whose edges overhang +-180/+-90 by a symbolic amount (0 .. 1 degree), through the real native_pix_transform / GbxPointTransform in both directions (clamping included): needed pixels kept, regions within the images, ReprojectInfo.transform.back of a pixel centre finite and equal to the pixel map",
+       functions=("odc.geo.overlap.compute_reproject_roi", "odc.geo.overlap.native_pix_transform", "odc.geo.overlap.GbxPointTransform.__call__", "odc.geo.overlap.GbxPointTransform.back", "odc.geo.overlap._relative_rois", "odc.geo.roi.roi_from_points"),
+       bounds="destination 8x4 pixels of 45 degrees, overhang on the north-west or south-east corner 0..1 degree per axis (symbolic); source pixel 45/k, origin and size symbolic (<= 2^31-1); padding None/0/symbolic, align 0/4",
+       stubs=("NumpyModel", "CRS.transformer_to_crs: coordinates coincide, geographic input outside +-180/+-90 gives non-finite output (PROJ's contract); PROJ itself outside the claim", "get_scale_at_point replaced by its contract (R7 checks it)"), setup=setup, timeout_ms=30000, deadline_s=2400),
     Ob("R6_separated", h_separated, lambda tier, rng: _sep_cfgs(tier), descr="rasters separated by more than the padding margin: both regions have zero area",
        functions=("odc.geo.overlap.compute_reproject_roi",), bounds="separation along one axis, either side (symbolic flag)", stubs=("NumpyModel",), setup=setup, timeout_ms=30000),
 ]
